@@ -25,6 +25,9 @@ OTHER_GROUPS = [
     (1, ""), (2, ""), (4, ""), (5, ""), (7, ""), (9, ""), (14, ""), (15, ""),
     (19, ""), (29, ""), (33, ""), (61, ""), (62, ""), (76, ""), (88, ""),
     (143, ""), (147, ""), (173, ""), (198, ""),
+    # non-default settings and origin choices, high-symmetry groups
+    (14, "c1"), (14, "b2"), (15, "-b1"), (5, "a1"), (62, "cab"), (62, "a-cb"), (48, "1"), (70, "1"),
+    (141, "1"), (141, ""), (194, ""), (225, ""), (227, "1"), (230, ""),
 ]  # fmt: skip
 
 MOLS = {
@@ -204,9 +207,13 @@ def gen_spec(rng, kind=None):
     cell = _cell_for(rng, number, choice)
     uc = UnitCell.from_lengths_and_angles(cell[:3], cell[3:], unit="degrees")
     occupation = None
+    n_ops = len(make_space_group(number, choice).symmetry_operations)
+    if n_ops > 48 and kind != "special":
+        kind = "messy"  # keep the unit cell of 96/192-operation groups small
     if kind == "messy":
-        k = rng.randint(1, 8)
-        els = [rng.choice(["C", "H", "O", "N", "H"]) for _ in range(k)]
+        k = rng.randint(1, 8 if n_ops <= 48 else 3)
+        palette = ["C", "H", "O", "N", "H"] if rng.random() < 0.8 else ["C", "H", "O", "S", "Cl", "Fe", "Br", "P", "D"]
+        els = [rng.choice(palette) for _ in range(k)]
         centre = np.array([[rng.random() for _ in range(3)]])
         cart = uc.to_cartesian(centre) + np.array(
             [[rng.uniform(-1.3, 1.3) for _ in range(3)] for _ in range(k)]
@@ -221,7 +228,7 @@ def gen_spec(rng, kind=None):
             els += e
         frac = uc.to_fractional(np.vstack(pos))
     else:  # "special": sites on/near symmetry elements, partial occupancies
-        k = rng.randint(1, 4)
+        k = rng.randint(1, 4 if n_ops <= 48 else 2)
         els = [rng.choice(["O", "N", "C", "S", "Cl"]) for _ in range(k)]
         grid = [0.0, 0.5, 1 / 3, 2 / 3, 0.25, 0.75]
         frac = np.array(
@@ -232,6 +239,14 @@ def gen_spec(rng, kind=None):
         )
         if rng.random() < 0.5:
             occupation = [rng.choice([1.0, 0.5, 0.25]) for _ in range(k)]
+    frac = np.asarray(frac, dtype=float)
+    if rng.random() < 0.1 and len(els) >= 1:
+        # a disordered site: two half-occupied positions a few hundredths of an Angstrom apart
+        j = rng.randrange(len(els))
+        els = list(els) + [els[j]]
+        frac = np.vstack([frac, frac[j] + np.array([rng.choice([0.002, 0.004, 0.02]), 0.0, 0.001])])
+        occupation = list(occupation) + [0.5] if occupation is not None else [1.0] * (len(els) - 1) + [0.5]
+        occupation[j] = 0.5
     via = rng.choice([None, None, "cif", "cif", "res", "poscar"])
     labels = None
     if rng.random() < 0.3:
